@@ -107,11 +107,20 @@ partial def exprOfJson (j : Json) : Option Expr :=
     | _ => none
   | _ => none
 
+/-- `{"layers": [[[name, value]..]..], "at": n}`: the host's context chain from the root upwards -/
+def layersOfJson (h : Json) : List (List (List Char × Value)) :=
+  (jarr h "layers").map fun layer =>
+    (asArr layer).map fun p =>
+      match asArr p with
+      | [n, v] => ((asStr n).toList, valOfJson v)
+      | _ => ([], .null)
+
 def runCase (fuel : Nat) (c : Json) : Json :=
   match exprOfJson (jget c "e") with
   | none => jo [("err", js "OOD")]
   | some e =>
-    match run fuel (valOfJson (jget c "doc")) e with
+    match (if jhas c "host" then runKw fuel (layersOfJson (jget c "host")) (jnat (jget c "host") "at") (valOfJson (jget c "doc")) e
+           else runKw fuel [] 0 (valOfJson (jget c "doc")) e) with
     | .ok (.data v) => jo [("ok", valToJson v)]
     | .ok .context => jo [("ctx", jb true)]
     | .error er => jo [("err", js (errName er))]
